@@ -4,7 +4,7 @@ Require Import LT.Model.Values LT.Proofs.ValuesProofs LT.Gen.SrcParams.
 (* Deserialising the serialised form gives back the very same task, however its parameters nest scalars, enums,
    tuples, dicts and other tasks — for the deserialize_value of the current source. *)
 Theorem C09_roundtrip : forall e v, wf_env e v = true -> no_reserved v = true ->
-  deser deser_mode_src e (ser v) = Some v.
+  deser deser_mode_src e (ser_of ser_mode_src v) = Some v.
 Proof. exact deser_ser. Qed.
 Print Assumptions C09_roundtrip.
 
@@ -20,8 +20,8 @@ Require Import LT.Model.Listing LT.Proofs.ListingProofs.
    that are prefixes of each other, the same qualified name under different KEY_PREFIXes, ...), cached_tasks(types)
    returns exactly the stored tasks whose class is one of the requested types: in storage order, each exactly once
    (however often a type is repeated in the request), the task structurally identical to the one stored, with the
-   stored result_meta; it never raises.  Hypotheses: the stored tasks are well-formed values without reserved dict keys
-   (known finding D9 otherwise), and a class has one cache configuration. *)
+   stored result_meta; it never raises.  Hypotheses: the stored tasks are well-formed values (whatever keys their dict
+   parameters use), and a class has one cache configuration. *)
 Theorem C09_listing_exact : forall e dumps H tys (items : list item),
   (forall it, In it items -> wf_item e it) ->
   (forall ty it, In ty tys -> In it items -> tt_cls ty = tt_cls (it_ty it) -> ty = it_ty it) ->
